@@ -30,6 +30,12 @@ func preludeFor(bv bool) string {
 (declare-fun dyntype (Int) Int)
 (define-fun sentinel_of ((i Int)) Int (+ 900000000 i))
 (declare-sort Bytes 0)
+(declare-fun bytes_of ((Array Int Int) Int Int) Bytes)
+(declare-fun bytes_len (Bytes) Int)
+(declare-fun bitand_int (Int Int) Int)
+(declare-fun bitor_int (Int Int) Int)
+(declare-fun bitxor_int (Int Int) Int)
+(declare-fun pow2 (Int) Int)
 `
 	}
 	var sb strings.Builder
